@@ -1556,6 +1556,9 @@ def parallel_beam_geometry(space, num_angles=None, det_shape=None):
        SIAM, 2001.
        https://dx.doi.org/10.1137/1.9780898718324
     """
+    if space.ndim not in (2, 3):
+        raise ValueError('``space.ndim`` must be 2 or 3.')
+
     # Find maximum distance from rotation axis
     corners = space.domain.corners()[:, :2]
     rho = np.max(np.linalg.norm(corners, axis=1))
